@@ -117,6 +117,7 @@ def _limit():
         pass
 
 
+MAX_STALLS_PER_CALL = 2
 CRASH_LOG = {}   # input line -> tail of the stderr of the process that died on it
 
 
@@ -125,7 +126,13 @@ def run_lines(cmd, lines, timeout=60.0, limit_mem=True, env=None):
     A line on which the process dies or stalls gets 'crash' / 'hang'; processing resumes after it."""
     outs = []
     i = 0
+    stalls = 0
     while i < len(lines):
+        if stalls >= MAX_STALLS_PER_CALL:
+            # a stalled line costs the whole watchdog; after a few of them in one call the rest is not run
+            # (the stalls themselves are reported; 'skipped' lines are not compared)
+            outs.extend(['skipped'] * (len(lines) - i))
+            break
         chunk = lines[i:]
         data = ('\n'.join(chunk) + '\n').encode()
         try:
@@ -150,6 +157,8 @@ def run_lines(cmd, lines, timeout=60.0, limit_mem=True, env=None):
                 CRASH_LOG[chunk[len(got)]] = 'exit status %s; stderr: %s' % (p.returncode, p.stderr.decode(errors='replace')[-3000:])
             outs.append(status)
             i += 1
+            if status == 'hang':
+                stalls += 1
     return outs
 
 
@@ -317,12 +326,16 @@ def impl_run(harness, lines, timeout=20.0, env=None, limit_mem=True):
     outs = run_sharded([harness, 'run'], lines, timeout=timeout, env=env, limit_mem=limit_mem)
     # an expired watchdog (the harness's own or the per-shard timeout) is confirmed on an isolated re-run
     # with six times the watchdogs before it is believed: a loaded machine must not look like a hang
+    confirmed = sum(1 for r in RETRIED if _timing(r[2]))
     for i, o in enumerate(outs):
-        if _timing(o) and len(RETRIED) < 40:
+        # once three stalls have been confirmed in isolation the further ones of this run are believed as they are
+        if _timing(o) and len(RETRIED) < 40 and confirmed < 3:
             e2 = dict(env if env is not None else os.environ, GFH_TSCALE='6')
             o2 = run_lines([harness, 'run'], [lines[i]], timeout=max(60.0, timeout * 6), env=e2, limit_mem=limit_mem)[0]
             RETRIED.append((lines[i][:200], o[:80], o2[:80]))
             outs[i] = o2
+            if _timing(o2):
+                confirmed += 1
     return outs
 
 
@@ -664,7 +677,7 @@ def run_streams(chk, prop, streams, matchers):
                                                  expected=e, model=m,
                                                  what='extracted model disagrees with the specification the theorem equates it with'),
                            matchers)
-            if o != e:
+            if o != e and o != 'skipped':
                 chk.record('scopeA', dict(concrete=True, stream=st['name'], index=i, input=a, expected=e, impl=o, model=m,
                                           what='implementation differs from the specification on a property-domain input'),
                            matchers)
@@ -683,6 +696,8 @@ def run_scope_b(chk, prop, ins, label, matchers, oracle=None, timeout=30.0):
     bad = []
     pj = getattr(prop, 'project', lambda x: x)
     for a, o, m in zip(ins, impl, mod):
+        if o == 'skipped':
+            continue
         o, m = pj(o), pj(m)
         if prop.nontrivial(a, m):
             chk.nontrivial.add(hashlib.sha1(a.encode()).digest()[:8])
